@@ -35,13 +35,37 @@ Record src := {
   s_isfile : bool;     (* its bytes can be read (false: a directory, ...) *)
   s_utf8 : bool }.     (* the bytes are valid UTF-8 *)
 
-(* the schema file given to -d/--cddl, as seen by cli.rs:169-181 *)
+(* one rule of the parsed schema, as far as the choice of the root looks at it *)
+Inductive rkind :=
+| KType (generic : bool)   (* ast::Rule::Type; generic = rule.generic_params.is_some() *)
+| KGroup.                  (* ast::Rule::Group *)
+
+(* the root is the first type rule without generic parameters: validator/json.rs and cbor.rs
+   validate(), and root_type_name_from_cddl_str (parser.rs:255-268), which only cli.rs uses *)
+Definition is_root (k : rkind) : bool := match k with KType false => true | _ => false end.
+
+Fixpoint root_from (i : N) (rs : list rkind) : option N :=
+  match rs with
+  | [] => None
+  | k :: t => if is_root k then Some i else root_from (i + 1) t
+  end.
+Definition root_index (rs : list rkind) : option N := root_from 0 rs.
+Definition has_root (rs : list rkind) : bool :=
+  match root_index rs with Some _ => true | None => false end.
+
+(* the schema file given to -d/--cddl, as seen by cli.rs:169-181.  For a schema that parses the
+   model is given the rule kinds of the AST (from the library) and decides itself whether
+   root_type_name_from_cddl_str(..)? succeeds *)
 Inductive sstatus :=
-| SOk             (* exists, is UTF-8, cddl_from_str accepts it and it has a root type rule *)
-| SMissing        (* !p.exists() *)
-| SUnreadable     (* fs::read_to_string(..)? fails *)
-| SNoParse        (* root_type_name_from_cddl_str(..)? fails: cddl_from_str rejects *)
-| SNoRoot.        (* root_type_name_from_cddl_str(..)? fails: "cddl spec contains no root type" *)
+| SMissing                        (* !p.exists() *)
+| SUnreadable                     (* fs::read_to_string(..)? fails *)
+| SNoParse                        (* cddl_from_str rejects *)
+| SParsed (rules : list rkind).   (* cddl_from_str accepts *)
+
+Definition schema_root (st : sstatus) : option N :=
+  match st with SParsed rs => root_index rs | _ => None end.
+Definition schema_ok (st : sstatus) : bool :=
+  match schema_root st with Some _ => true | None => false end.
 
 Inductive outcome :=
 | OSucc           (* info!("Validation of {:?} is successful") *)
@@ -65,7 +89,9 @@ Definition item := (route * N * src)%type.
 Definition it_route (x : item) : route := fst (fst x).
 Definition it_src (x : item) : src := snd x.
 
-Inductive sevent := EvNone | EvSchemaMissing | EvSchemaErr.
+Inductive sevent :=
+| EvRoot (i : N)       (* info!("Root type for validation: {}") names rule number i *)
+| EvSchemaMissing | EvSchemaErr.
 
 Record result := {
   r_schema : sevent;
@@ -145,9 +171,13 @@ Fixpoint run (a : vargs) (l : list item) : list (item * outcome) * bool :=
 Definition validate (a : vargs) : result :=
   match v_schema a with
   | SMissing => {| r_schema := EvSchemaMissing; r_reports := []; r_fail := v_ci a |}   (* :170-174 *)
-  | SUnreadable | SNoParse | SNoRoot =>
+  | SUnreadable | SNoParse =>
       {| r_schema := EvSchemaErr; r_reports := []; r_fail := true |}                   (* :176-181 `?` *)
-  | SOk => let (rs, e) := run a (todo a) in {| r_schema := EvNone; r_reports := rs; r_fail := e |}
+  | SParsed rs =>
+      match root_index rs with
+      | None => {| r_schema := EvSchemaErr; r_reports := []; r_fail := true |}         (* "no root type" `?` *)
+      | Some i => let (l, e) := run a (todo a) in {| r_schema := EvRoot i; r_reports := l; r_fail := e |}
+      end
   end.
 
 Definition usable (x : item) : bool :=
@@ -179,7 +209,7 @@ Definition compile_cddl (ci : bool) (f : fstatus) : cresult :=
   end.
 
 (* ---------- canonical rendering shared with lib/props/c18.py ----------
-   "<schema> <report>* X<0|1>"   schema: '-' none, 'm' missing, 'e' error
+   "<schema> <report>* X<0|1>"   schema: 'r<digit>' root is rule number <digit>, 'm' missing, 'e' error
    report: <j|c|s|i><index digit><+ ok | - fail | ? missing>, or "!" for an I/O abort *)
 Definition route_code (r : route) : N :=
   match r with RJson => 106 | RCbor => 99 | RCsv => 115 | RStdin => 105 end.
@@ -194,7 +224,7 @@ Definition render_report (p : item * outcome) : list N :=
   end.
 
 Definition render (res : result) : list N :=
-  [match r_schema res with EvNone => 45 | EvSchemaMissing => 109 | EvSchemaErr => 101 end; 32]
+  match r_schema res with EvRoot i => [114; 48 + i] | EvSchemaMissing => [109] | EvSchemaErr => [101] end ++ [32]
   ++ flat_map render_report (r_reports res)
   ++ [88; if r_fail res then 49 else 48].
 
@@ -236,17 +266,19 @@ Fixpoint mk_srcs (base : N) (l : list dsrc) : list src * list (N * list bool) :=
        (base, d_bits d) :: tb)
   end.
 
-Definition schema_of_code (c : N) : sstatus :=
-  match c with 0 => SOk | 1 => SMissing | 2 => SUnreadable | 3 => SNoParse | _ => SNoRoot end.
+Definition rkind_of_code (c : N) : rkind :=
+  match c with 0 => KType false | 1 => KType true | _ => KGroup end.
+Definition schema_of_code (c : N) (rules : list N) : sstatus :=
+  match c with 0 => SParsed (map rkind_of_code rules) | 1 => SMissing | 2 => SUnreadable | _ => SNoParse end.
 
 (* one `validate` case.  [f]: None = no --features, Some l = the list (names abstracted to numbers) *)
-Definition case_validate (ci hdr : bool) (f : feats) (schema : N)
+Definition case_validate (ci hdr : bool) (f : feats) (schema : N) (rules : list N)
            (js cs ss : list dsrc) (stdin : option dsrc) : list N :=
   let '(j, tj) := mk_srcs 0 js in
   let '(c, tc) := mk_srcs 100 cs in
   let '(s, ts) := mk_srcs 200 ss in
   let '(i, ti) := mk_srcs 300 (match stdin with Some d => [d] | None => [] end) in
-  let a := {| v_ci := ci; v_schema := schema_of_code schema; v_feats := f; v_hdr := hdr;
+  let a := {| v_ci := ci; v_schema := schema_of_code schema rules; v_feats := f; v_hdr := hdr;
               v_json := j; v_cbor := c; v_csv := s; v_stdin := hd_error i |} in
   render (validate (lib_of_table (tj ++ tc ++ ts ++ ti)) a).
 
